@@ -522,6 +522,16 @@ Definition prog_ok (x : option (list Qc)) (y : list Qc) (e : option exn) (steps 
                 ra = r * rspan + rx_[0] if rr else r
                 if not (la + 1e-9 * (1 + abs(la)) < ra):
                     return None
+                # margin (DESIGN 3.6): a bound within rounding of a sample of either series whose abscissae are not exact dyadics —
+                # the midpoint of two working samples can coincide, in floats, with a reference sample that is 1e-16 away from it in
+                # exact arithmetic, and `>=` then goes either way
+                if not (exact and is_exact(rx_)):
+                    lx = l * span + x[0] if lr else l
+                    rx2 = r * span + x[0] if rr else r
+                    for arr_, bs_ in ((rx_, (la, ra)) if not is_exact(rx_) else (rx_, ()), (np.asarray(x, dtype=float), (lx, rx2) if not exact else ())):
+                        for b_ in bs_:
+                            if np.any(np.abs(arr_ - b_) < 1e-9 * (1 + abs(b_))):
+                                return None
             return {"op": name, "l": l, "r": r, "lr": lr, "rr": rr, "bounds_0d": rng.random() < 0.2}
         if name == "truncate_by_index":
             if n < 6:
@@ -630,6 +640,13 @@ Definition prog_ok (x : option (list Qc)) (y : list Qc) (e : option exn) (steps 
              "slice_value_near": {"op": "slice_by_value", "start": float(x[0]) + near(x[0]) if rng.random() < 0.5 else None,
                                   "stop": float(x[-1]) - near(x[-1]), "step": 1},
              "interp_none": {"op": "interpolate", "method": "linear"},
+             # a keyword the chosen strategy does not take (left over from another strategy): Python refuses the call with TypeError.
+             # Not a request the model knows (harness_only: the step is left out of the in-Coq comparison, which goes on from the
+             # unchanged state); judged here — the refusal leaves nothing behind
+             "recreate_kwarg": {"op": "recreate", "n": rng.choice([2, 3, 4]), "strategy": rng.choice(["linfixed", "linadapt", "cubic"]),      # (the piecewise-constant strategy takes any keyword)
+                                "alpha": 1.0, "a": None, "beta": 0.5, "exp": 2.0, "smooth": 1.0,
+                                "extra_kw": rng.choice([{"beta": 0.5}, {"exp": 2.0}, {"beta": 0.5, "exp": 3.0}]),
+                                "harness_only": True, "expect_exc": "TypeError"},
              }[kind]
         if kind in ("grid_ends", "grid_ends_permuted", "grid_ends_near") and rng.random() < 0.4:
             d["also_n"] = rng.choice([len(d["new_x"]), 5])      # the explicit grid still overrides n, and is still checked
@@ -676,7 +693,7 @@ Definition prog_ok (x : option (list Qc)) (y : list Qc) (e : option exn) (steps 
             if o.get("all_defaults"):
                 w.recreate_from_average(nn)          # the documented default strategy with its default parameters
             else:
-                w.recreate_from_average(nn, rfa_class=rfa_units.cls_of(o["strategy"]), **rfa_units.kwargs_of(o))
+                w.recreate_from_average(nn, rfa_class=rfa_units.cls_of(o["strategy"]), **rfa_units.kwargs_of(o), **o.get("extra_kw", {}))
         elif name == "integral_match":
             kw = {"alpha": o["alpha"]}
             if "strategy" in o:
@@ -983,6 +1000,8 @@ Definition prog_ok (x : option (list Qc)) (y : list Qc) (e : option exn) (steps 
                 return "false (* the model holds every field as an ndarray; the implementation holds %s *)" % st["kinds"]
             if any(s is None for s in st["state"]) or not all_finite(*st["state"]):
                 break
+            if op.get("harness_only") and st["state"] == st["before"]:
+                continue
             if op["op"] in QUERY_OPS:
                 r = "(OExn %s)" % st["exc"] if "exc" in st else "(OVal (%s, %s))" % (qlist(st["result"][0], qa), qlist(st["result"][1], qa))
                 tolq = tol_for([v for s_ in st["state"][:2] for v in s_], rel=2.0 ** -26)
@@ -1034,8 +1053,8 @@ Definition prog_ok (x : option (list Qc)) (y : list Qc) (e : option exn) (steps 
             # ---------- C20: rejected request
             if "invalid" in op:
                 rp = "C20" if ("C20" in self.aspects or not self.invalid_kinds) else sorted(self.aspects)[0]
-                if st.get("exc") != "ValueError":
-                    fail(rp, "rejection-" + op["invalid"], "step %d: invalid request %s gave %s, not ValueError" % (i, op, st.get("exc_msg") or "no exception"), cls=op["invalid"])
+                if st.get("exc") != op.get("expect_exc", "ValueError"):
+                    fail(rp, "rejection-" + op["invalid"], "step %d: invalid request %s gave %s, not %s" % (i, op, st.get("exc_msg") or "no exception", op.get("expect_exc", "ValueError")), cls=op["invalid"])
                 elif S != B:
                     fail(rp, "rejected-but-changed", "step %d: rejected %s changed the object (the next operation works on a corrupted series)" % (i, op), cls=op["invalid"])
                 continue
